@@ -105,8 +105,8 @@ class TriggerHandler:
         if self._config.NO_TRACE:
             return
         self.__start_thread = threading.get_ident()
-        # remembered here: this is looked at on every trace event after shutdown, where we must not go through the config
-        # (an unknown key is logged, and we may be called from inside the logging module)
+        # remembered here: this is looked at on every trace event after shutdown, where we must not go through the
+        # config (an unknown key is logged, and we may be called from inside the logging module)
         self.__hooks_installed = True
         self.__old_sys_trace = sys.gettrace()
         # gettrace was added in 3.10, so use it if we can, else try to get from property
@@ -159,8 +159,10 @@ class TriggerHandler:
         :param arg: the args
         :return: None to ignore other calls, or our self to continue
         """
-        if self.__shutdown:
+        if self.__shutdown and not self._callbacks.is_set:
             return self.__leave_thread()
+        # (after shutdown we are still called for what this thread has pending - spans to close, deferred snapshots -
+        # until it is completed; there are no tracepoints any more, so nothing new is started)
         try:
             return self._trace_call(frame, event, arg)
         except BaseException:
@@ -252,27 +254,22 @@ class TriggerHandler:
 
     def __process_call_backs(self, ctx: 'TriggerContext', arg: any, frame: FrameType, event: str, file: str, line: int,
                              function_name: str):
+        pending = self._callbacks.value
         try:
-            # remove top context
-            context: CallbackContext = self._callbacks.value.pop()
-            # if it is for our location process it
-            if context.at_location(event, file, line, function_name, frame):
-                logging.debug("At callback location %s", context.name)
+            # look at the top context, it is only taken off when it is for our location: nothing that can fail (a
+            # log call needs stack, the application may be close to the recursion limit) may come between taking a
+            # context off and putting it back, or the context - the span to close, the snapshot to send - is lost
+            if len(pending) > 0 and pending[-1].at_location(event, file, line, function_name, frame):
+                context: CallbackContext = pending.pop()
                 context.process(ctx, event, frame, arg)
                 # the same event also completes whatever else is pending for this very frame (e.g. a method span
                 # and a span on the line that returns)
-                pending = self._callbacks.value
                 while len(pending) > 0 and pending[-1].frame is frame \
                         and pending[-1].at_location(event, file, line, function_name, frame):
                     pending.pop().process(ctx, event, frame, arg)
-            else:
-                logging.debug("Not at callback location %s", context.name)
-                # else put the context back on the queue
-                self._callbacks.value.append(context)
         finally:
             # also when a callback failed: never leave an empty entry behind for this thread
-            if len(self._callbacks.value) == 0:
-                logging.debug("Callbacks cleared.")
+            if len(pending) == 0:
                 self._callbacks.clear()
 
     @staticmethod
